@@ -264,7 +264,12 @@ class Model:
                 while d:
                     self.required_dirs.add(d)
                     d = os.path.dirname(d)
-                self.optional_dirs.add(o["path"].rstrip("/"))
+                if not o["path"].endswith("/"):
+                    # whether the last component itself becomes a directory is a leniency (the reference creates it, the library creates
+                    # its parents); with a trailing slash the named directory IS the parent and must exist afterwards
+                    self.optional_dirs.add(o["path"])
+                else:
+                    self.optional_dirs.discard(o["path"].rstrip("/"))
             elif k in ("ADIR", "DELD"):
                 d = o["name"].rstrip("/")
                 while d:
